@@ -16,6 +16,7 @@ def run_glue(ctx, focus, n_batches):
     if focus in ('c09', 'c02'):
         long_sentences(ctx, focus, 1 if ctx.quick else 8)
     special_batches(ctx, focus, cases, descr)
+    huge_cache_batch(ctx, focus)
     ctx.coq_cases('retrieve_tree', glue.PRE, cases, chunk=60, describe=lambda i: descr[i])
     ctx.stats['retrieve_cases'] = len(cases)
 
@@ -108,6 +109,57 @@ def special_batches(ctx, focus, cases, descr):
                 k += 1
 
 
+def huge_cache_batch(ctx, focus):
+    """one sentence whose search asks the rule functions for more than 2^16 different pairs (260 lexical categories on each of two words, every one
+    admitted) BETWEEN the creation of the constituents of the parse that is finally returned and its return: the root attachment is so bad that the finished
+    parse waits in the agenda until every other item has been expanded.  The tree must still carry the labels of the results that created its nodes
+    (each pair has two differently labelled results), whatever has happened to the rule cache meanwhile."""
+    import random
+    from depccg.types import CombinatorResult
+    bseed = f'{ctx.seed}:{focus}:special:huge_cache'
+    rng = random.Random(bseed)
+    c = _TagFail(ctx, bseed)
+    m = rng.randint(258, 264)
+    T = [Category.parse(f'T{i}') for i in range(m)]
+    idx = {t: i for i, t in enumerate(T)}
+    R, Q = Category.parse('R'), Category.parse('Q')
+    hl = rng.random() < 0.5
+
+    def binary(x, y):
+        i, j = idx.get(x), idx.get(y)
+        if i is None or j is None:
+            return []
+        return [CombinatorResult(cat=R, op_string=f'a{i}_{j}', op_symbol='<a>', head_is_left=hl), CombinatorResult(cat=Q, op_string=f'b{i}_{j}', op_symbol='<b>', head_is_left=not hl)]
+
+    def unary(x):
+        return []
+    s = glue.rand_sentence(rng, m, n=2)
+    s.tokens = [gen.rand_token(rng, 'en', full=False, plain=True) for _ in range(2)]
+    for j in range(2):
+        order = list(range(m))
+        rng.shuffle(order)
+        for rank, k_ in enumerate(order):
+            s.tag[j, k_] = -rank / 64.0
+    s.dep[:, :] = -1.0
+    s.dep[:, 0] = -40.0            # whoever is the head of the sentence, its attachment to the root is far worse than any other arc
+    try:
+        res, rec = glue.run([s], T, [R, Q], binary, unary, unary_penalty=0.125, beta=0.1, use_beta=False, pruning_size=m, nbest=1, max_step=2000000, max_length=250)
+    except Exception as e:      # noqa
+        c.fail('run_raised', f'depccg.parsing.run raised {type(e).__name__}: {e} on a two-word sentence with {m} admitted categories per word ({m * m} pairs asked in one search)',
+               {'variant': 'huge_cache', 'm': m})
+        return
+    ctx.count('glue:special:huge_cache')
+    ctx.case(('special', 'huge_cache', m, hl), nontrivial=True)
+    rs = res[0]
+    if len(rs) == 1 and glue.is_placeholder(rs[0]):
+        c.fail('false_failure', f'huge_cache: no parse although every pair of lexical categories combines into a root category', {'variant': 'huge_cache', 'm': m})
+        return
+    for ti, st in enumerate(rs):
+        where = f'huge_cache batch tree {ti}'
+        for f_ in dict.fromkeys([focus if focus in ('c02', 'c12', 'c09', 'c16') else 'c02', 'c12']):
+            glue.check_tree(c, f_, st.tree, st.score, s, T, [R, Q], binary, unary, [list(T)] * 2, 0.125, where)
+
+
 def long_sentences(ctx, focus, count):
     """sentences of more than 256 tokens (max_length is the caller's option; 250 is only its default): Tree-level oracles only"""
     import random
@@ -167,7 +219,10 @@ def replay(data, focus):
             if ':special:' in bs:
                 seed, foc, _, _v = bs.split(':')
                 ctx.seed = int(seed)
-                special_batches(ctx, foc, [], [])
+                if _v == 'huge_cache':
+                    huge_cache_batch(ctx, foc)
+                else:
+                    special_batches(ctx, foc, [], [])
                 continue
             if ':long:' in bs:
                 seed, foc, _, b = bs.split(':')
@@ -264,6 +319,13 @@ def one_batch(ctx0, focus, rng, b, bseed, cases, descr):
             theta_odd = -math.log(eff['beta']) * 16.0
             pen8 = eff['unary_penalty'] * 8.0
             ctx.count(f'glue:options_omitted:{len(omitted)}')
+        too_big = None
+        if focus == 'c16' and 'max_step' in call_cfg and call_cfg['max_step'] >= 300000 and rng.random() < 0.12:
+            # an option that does not fit the C struct (a step budget beyond 32 bits, meant as "no limit"): the extension refuses it with
+            # OverflowError; whatever run() does about that, it must not answer with trees from another beam than the caller's
+            too_big = (1 << 32) + rng.randint(0, 1000)
+            call_cfg['max_step'] = too_big
+            ctx.count('glue:option_beyond_32_bits')
         # the worker-pool path of depccg.parsing.run (batch larger than max_chunk_size) must honour the same configuration
         pool = focus in ('c16', 'c02') and lang != 'synthetic' and len(sents) >= 2 and rng.random() < 0.5      # (closures of the synthetic tables cannot be pickled)
         extra = dict(max_chunk_size=rng.randint(1, len(sents) - 1), processes=rng.randint(1, 3)) if pool else {}
@@ -275,6 +337,12 @@ def one_batch(ctx0, focus, rng, b, bseed, cases, descr):
                 rec = None          # the finalizer ran in the worker processes
                 for s_ in sents:
                     s_.by_value = True      # and the tokens came back through pickling: equal, not identical
+        except OverflowError as e:
+            if too_big is not None:
+                ctx.count('glue:option_beyond_32_bits:OverflowError')
+                return
+            ctx.fail('run_raised', f'depccg.parsing.run raised OverflowError: {e} on a well-formed batch ({lang}, nbest={nbest})', {'lang': lang})
+            return
         except Exception as e:      # noqa
             ctx.fail('run_raised', f'depccg.parsing.run raised {type(e).__name__}: {e} on a well-formed batch ({lang}, nbest={nbest})',
                      {'lang': lang, 'config': {k: (v if not isinstance(v, float) else float(v)) for k, v in cfg.items()},
